@@ -110,6 +110,13 @@ func TestVerifC06(t *testing.T) {
 			for b := 0; b < nb; b++ {
 				d := rng.Bytes(rng.Range(0, 300))
 				h := verifkit.MD5Hex(d)
+				dup := false
+				for _, x := range cv.Blocks {
+					dup = dup || x == h // a volume stores a block once (e.g. the empty block drawn twice)
+				}
+				if dup {
+					continue
+				}
 				data[h] = d
 				cv.Blocks = append(cv.Blocks, h)
 			}
